@@ -173,6 +173,11 @@ func inOpaqueStringer(e *Engine, st *State, fn *ssa.Function, args []Value, site
 // json.Unmarshal: concrete input into *[]string (the only shape the repository code needs with
 // concrete data: the prefix list of a secret provider)
 func inJSONUnmarshal(e *Engine, st *State, fn *ssa.Function, args []Value, site ssa.Instruction) []Outcome {
+	if in, ok := args[0].(*SliceV); ok && in.obj != nil {
+		if _, isDoc := e.docs[in.obj]; isDoc {
+			return e.docUnmarshal(st, args, "json", site)
+		}
+	}
 	data, ok := e.argBytes(st, args[0])
 	if !ok {
 		panic(unsupported("json.Unmarshal of symbolic bytes"))
